@@ -26,7 +26,7 @@ FLOORS = {"quick": {"agenda_pops": 20000, "mixed_class_instants": 500, "same_cla
                        "spec_compared": 20000, "stops_reached": 2000, "negative_delay_probes": 10, "long_history_cases": 48}}
 
 PROFILE = {"weights": {"timeout": 6, "zero": 2, "wait": 2, "succeed": 2, "fail": 0.5, "spawn": 2, "join": 2,
-                       "interrupt": 3, "cb": 0.5, "cond": 0},
+                       "interrupt": 3, "cb": 0.5, "cond": 0, "cbint": 0.3, "chain": 0.2},
            "max_top": 5, "max_child_scripts": 3, "max_ev": 3, "p_exact": 0.7, "p_raise": 0.05, "p_catch": 0.85,
            "t0": [0, 0, 0, 5, 2.5]}
 
@@ -63,6 +63,7 @@ def one_case(ctx, prog, stops):
     r.start()
     reached = r.run_with_stops(stops)
     viol = list(mon.finish())
+    kern.count_extras(ctx, r)
     for t, now in reached:
         ctx.count("stops_reached")
         if now != t:
@@ -108,17 +109,23 @@ def mech_name(m, wit):
 def negative_delay_probes(ctx):
     K = kern.RealK.load()
     env = K.Environment()
-    for d in (-1, -0.5, -1e-9, -1e-300, float("-inf"), -3):
-        ctx.count("negative_delay_probes")
-        try:
-            env.timeout(d)
-            ctx.violation("negative-delay-accepted", "timeout with a negative delay was not refused with ValueError",
-                          {"delay": repr(d)}, {"probe": "negative_delay", "delay": repr(d)})
-        except ValueError:
-            pass
-        except Exception as e:
-            ctx.violation("negative-delay-wrong-exception", "timeout with a negative delay raised something other than ValueError",
-                          {"delay": repr(d), "exc": repr(e)}, {"probe": "negative_delay"})
+    forms = {"env.timeout(d)": lambda d: env.timeout(d), "env.timeout(delay=d)": lambda d: env.timeout(delay=d),
+             "Timeout(env, d)": lambda d: K.Timeout(env, d), "Timeout(env, delay=d, value=1)": lambda d: K.Timeout(env, delay=d, value=1)}
+    for form, mk in forms.items():
+        for d in (-1, -0.5, -1e-9, -1e-300, float("-inf"), -3):
+            ctx.count("negative_delay_probes")
+            try:
+                mk(d)
+                ctx.violation("negative-delay-accepted", "a timeout with a negative delay was not refused with ValueError",
+                              {"delay": repr(d), "form": form}, {"probe": "negative_delay", "delay": repr(d)})
+            except ValueError:
+                pass
+            except Exception as e:
+                ctx.violation("negative-delay-wrong-exception", "a timeout with a negative delay raised something other than ValueError",
+                              {"delay": repr(d), "exc": repr(e), "form": form}, {"probe": "negative_delay"})
+    if env.peek() != float("inf"):
+        ctx.violation("negative-delay-accepted", "a refused timeout was scheduled nevertheless", {"peek": env.peek()},
+                      {"probe": "negative_delay"})
     for d in (0, 0.0, -0.0, 1e-300):
         ctx.count("negative_delay_probes")
         try:
